@@ -97,6 +97,25 @@ def audit_module(repo, rel):
             if isinstance(x, (ast.Global, ast.Nonlocal)):
                 rep(x, '%s statement' % type(x).__name__.lower())
                 glob_decl |= set(x.names)
+        # locals bound directly (no call in between) to module-level state: `params = DEFAULTS`, `row = _TABLE[k]`, `t = c.SOMETHING`
+        # are other names of that state -- a store or mutating call through them writes it
+        aliases = {}
+        for x in ast.walk(fn):
+            if isinstance(x, ast.Assign) and len(x.targets) == 1 and isinstance(x.targets[0], ast.Name) \
+                    and isinstance(x.value, (ast.Name, ast.Attribute, ast.Subscript)):
+                rn = root_name(x.value)
+                if rn is not None and rn != 'self' and (rn in mod_aliases or rn in mod_names) and rn not in loc:
+                    aliases[x.targets[0].id] = rn
+        for x in ast.walk(fn):
+            if aliases:
+                tg = x.targets if isinstance(x, (ast.Assign, ast.Delete)) else ([x.target] if isinstance(x, (ast.AugAssign, ast.AnnAssign)) else [])
+                for t in tg:
+                    for tt in (t.elts if isinstance(t, (ast.Tuple, ast.List)) else [t]):
+                        if not isinstance(tt, ast.Name) and root_name(tt) in aliases:
+                            rep(x, 'store into module-level state rooted at `%s` through the local alias `%s`' % (aliases[root_name(tt)], root_name(tt)))
+                if isinstance(x, ast.Call) and isinstance(x.func, ast.Attribute) and x.func.attr in MUTATORS and root_name(x.func.value) in aliases:
+                    rn = root_name(x.func.value)
+                    rep(x, 'mutating call on module-level state rooted at `%s` through the local alias `%s`' % (aliases[rn], rn))
         for x in ast.walk(fn):
             targets = []
             if isinstance(x, ast.Assign):
